@@ -11,7 +11,13 @@ open Pendulum Pendulum.Cal Pendulum.C15
 
 /-- `is_leap` is the Gregorian rule, every integer year -/
 theorem is_leap_iff (y : Int) : Gen.is_leap y = Cal.isLeap y := by
-  unfold Gen.is_leap Cal.isLeap; rfl
+  rw [year_rep y, gen_leap_shift, isLeap_shift]
+  have hr : (y % 400).toNat < 400 := by omega
+  have h := all_range leapCycle_true _ hr
+  simp only [beq_iff_eq] at h
+  have e1 : ((y % 400).toNat : Int) = y % 400 := by omega
+  rw [e1] at h
+  exact h
 
 /-- `days_in_year` is the distance between consecutive New Year ordinals, every integer year -/
 theorem days_in_year_spec (y : Int) : Gen.days_in_year y = daysBeforeYear (y + 1) - daysBeforeYear y := by
